@@ -63,7 +63,7 @@ def gen_costs(rng):
     cs = []
     for _ in range(n):
         k = rng.choice(["ps", "pct", "flat"])
-        x = {"ps": rng.choice([0.0, 0.01, 0.1, 0.5]), "pct": rng.choice([0.0, 0.01, 0.001, 0.1]),
+        x = {"ps": rng.choice([0.0, 0.01, 0.1, 0.5, 1.0, 2.0]), "pct": rng.choice([0.0, 0.01, 0.001, 0.1]),
              "flat": rng.choice([0.0, 1.0, 5.0, 10.0, 50.0])}[k]
         cs.append([k, f2b(x)])
     return cs
@@ -163,7 +163,14 @@ def gen_broker_scenario(rng, lazy=False, style=None, malformed=False, limit_orde
             price = None if t.startswith("Market") else rng.choice(exch.GRID + [5.0, 10.0, 26.0])
             ops.append(dict(op="send", order=order(t, sym, shares, price)))
         elif r < 0.86:
-            ops.append(dict(op="diff", weights=gen_weights(rng)))
+            d = dict(op="diff", weights=gen_weights(rng))
+            if rng.random() < 0.4:
+                # one or two symbols whose gap to target is a chosen multiple of the price: just under / over one
+                # share either way, under one share net of per-share costs, exactly zero, several shares
+                d["rel_weights"] = [[sy, f2b(rng.choice([0.0, 0.5, 0.93, 0.97, 0.999, 1.0, 1.001, 1.03, 1.6, 2.5, 7.25,
+                                                         -0.5, -0.93, -0.97, -0.999, -1.0, -1.001, -1.03, -1.6, -2.5, -7.25]))]
+                                    for sy in rng.sample(SYMS, rng.choice([1, 2]))]
+            ops.append(d)
         elif r < 0.96:
             ops.append(dict(op="getters"))
         else:
@@ -267,6 +274,8 @@ def broker_steps(sc, tr, idx):
             gobs = None if panic else "OUnit"
         elif o == "diff":
             ws = res["weights_order"] if not panic else op["weights"]
+            if not panic:
+                op["weights_used"] = ws
             gop = gc("BDiff", gl([gt(gs(w[0]), gf(w[1])) for w in ws]), g_strs(positions(pre)))
             gobs = None if panic else gc("OOrders", gl([g_uo(x) for x in res["orders"]]))
         elif o == "getters":
@@ -649,7 +658,7 @@ def oracle_c12(sc, steps):
         quotes = {q["key"]: q for q in pre["quotes"]}
         vals = {p["sym"]: p["value"] for p in pre["per_sym"]}
         want = {}
-        for sym, w in op["weights"]:
+        for sym, w in (op.get("weights_used") or res.get("weights_order") or op["weights"]):
             cur = F(vals[sym]) if vals.get(sym) is not None else 0.0
             gap = total * F(w) - cur
             if sym not in quotes or gap == 0.0 or math.isnan(gap):
@@ -681,7 +690,7 @@ def oracle_c12(sc, steps):
                 continue
             if want.get(sym) != got.get(sym):
                 return dict(step=k, what="order for %s: the property demands %s, the broker produced %s" % (
-                    sym, want.get(sym), got.get(sym)), weights=[(s, F(w)) for s, w in op["weights"]],
+                    sym, want.get(sym), got.get(sym)), weights=[(s, F(w)) for s, w in res["weights_order"]],
                     weights_iteration_order=[x[0] for x in res["weights_order"]])
     return None
 
